@@ -590,13 +590,31 @@ func (p *Prog) failArms(fn *ssa.Function, ifs []ifInfo, guard []Atom, effectSite
 				starts = append(starts, enter(b, slot, ii.site, edges)...)
 			}
 		}
-		reach := reachFromNodes(starts, edges)
-		for rb := range reach {
+		nodes := reachNodes(starts, edges)
+		reach := map[*ssa.BasicBlock]bool{}
+		for n := range nodes {
+			reach[n.B] = true
+		}
+		for n := range nodes {
+			rb := n.B
 			for _, in := range rb.Instrs {
 				switch in := in.(type) {
 				case *ssa.Return:
 					if rb.Parent() != fn {
-						continue // a spliced helper's return continues in fn
+						// a helper's return: an exit of fn only when reached by tail calls all the way
+						if n.Site == nil || !tailChain(n.Site) {
+							continue
+						}
+						if _, isTail := p.tailReturn(in); isTail {
+							continue
+						}
+						if k := p.exitKind(p.tx(rb.Parent()), in); k != "error" {
+							return false, fmt.Sprintf("fail arm of %q at %s reaches a non-error return at %s (kind %s)", ii.atom.Key, p.instrPos(ii.in), p.instrPos(in), k)
+						}
+						continue
+					}
+					if _, isTail := p.tailReturn(in); isTail {
+						continue // its exits are the helper's, judged where they are reached
 					}
 					if mes := p.mergedExits(x, in); mes != nil {
 						// judged per predecessor that the fail arm can come through
@@ -714,6 +732,8 @@ func isNilConst(v ssa.Value) bool {
 	return ok && c.Value == nil
 }
 
+var tailActive = map[*ssa.Function]bool{}
+
 // returnsOf lists return instructions of fn by kind. A phi-merged return contributes, as
 // success-capable exits, the jumps of the predecessors that bring a possibly-nil error.
 func (p *Prog) returnsOf(fn *ssa.Function) (all []*ssa.Return, successCapable []ssa.Instruction) {
@@ -722,6 +742,14 @@ func (p *Prog) returnsOf(fn *ssa.Function) (all []*ssa.Return, successCapable []
 		for _, in := range b.Instrs {
 			if r, ok := in.(*ssa.Return); ok {
 				all = append(all, r)
+				if h, ok := p.tailReturn(r); ok && !tailActive[h] {
+					// `return helper(...)`: the helper's success-capable exits are this function's
+					tailActive[h] = true
+					_, hs := p.returnsOf(h)
+					delete(tailActive, h)
+					successCapable = append(successCapable, hs...)
+					continue
+				}
 				if mes := p.mergedExits(x, r); mes != nil {
 					for _, me := range mes {
 						if me.kind != "error" {
